@@ -10,7 +10,8 @@ Input lines
   doc <replace> <path> K <n> <ifacedef>*n X <n> (<objpath> <n> <ifacedef>*n)*n Q <n> (<filter|-> <method> <nargs>)*n
   evs <replace> K <n> <ifacedef>*n E <n> (S <name> <n> (<key> <value>)*n | E <name>)*n
   ifacedef := <name> <n> <op>*n
-  op       := m <name> <in> <out> | s <name> <sig> | p <name> <sig> <r> <w> <t|f|i> | dm <name> | ds <name>
+  op       := m <name> <in> <out> | M <name> <in> <out> <nargs> <nret> (object already counted) | s <name> <sig>
+              | S <name> <sig> <nargs> (already counted) | p <name> <sig> <r> <w> <t|f|i> | dm <name> | ds <name>
               | dp <name> | x
 Output
   doc:  `none` | `err <kind>` | `ok <events>|<result>|<calls>|2|<result of a second parse of the same events with
@@ -99,9 +100,16 @@ def op : P Op := do
   if t == "m" then
     let n ← str; let a ← str; let r ← str
     pure (.addMethod (Method.new n a r))
+  else if t == "M" then
+    -- a Method object that was counted before (already added to another interface, or `nargs` set by hand)
+    let n ← str; let a ← str; let r ← str; let na ← nat; let nr ← nat
+    pure (.addMethod ⟨n, (na : Int), (nr : Int), a, r⟩)
   else if t == "s" then
     let n ← str; let a ← str
     pure (.addSignal (Signal.new n a))
+  else if t == "S" then
+    let n ← str; let a ← str; let na ← nat
+    pure (.addSignal ⟨n, (na : Int), a⟩)
   else if t == "p" then
     let n ← str; let sg ← str; let r ← flag; let w ← flag
     let e ← tok
